@@ -26,7 +26,7 @@ def run(ctx):
     pf = ctx.path("plans.ndjson")
     vlib.write_ndjson(pf, plans)
     traces = ctx.path("traces.ndjson")
-    p = vlib.run_harness(ctx, binary, ["msg", "--plans", pf, "--out", traces, "--extra", "400" if quick else "20000"], timeout=3000)
+    p = vlib.run_harness(ctx, binary, ["msg", "--plans", pf, "--out", traces, "--extra", "400" if quick else "150000"], timeout=3000)
     if p.returncode != 0:
         raise vlib.Undecided("msg harness failed: rc=%d %s" % (p.returncode, p.stderr[-3000:]))
     st = json.loads(p.stdout.strip().splitlines()[-1])
